@@ -112,6 +112,17 @@ def gen_case(rng, tier):
 def generate(rng, tier):
     n = 100 if tier == "quick" else 1200
     cases = [gen_case(rng, tier) for _ in range(n)]
+    # always present: label-aware counterfactuals under a projection that depends on the targets (the query must be
+    # projected with ITS OWN targets, not with the expected class)
+    found = 0
+    for _ in range(400):
+        if found >= 4:
+            break
+        c = gen_case(rng, tier)
+        if c["method"] == "label" and c["proj"]["wk"] == "target" and not c.get("int_targets") and \
+                any(argmax(q) != argmax(f) for q, f in zip(c["qtargets"], c["cf"])):
+            cases.append(c)
+            found += 1
     for c in cases:
         c["history"] = rng.choice([None, None, "before", "before", "after", "both"])
     return cases
